@@ -14,8 +14,8 @@ _UUID_CHAR = "[0-9a-fA-F-]"
 # UUID_PATTERN = "^%s{8}-%s{4}-%s{4}-%s{4}-%s{12}$" % ((_UUID_CHAR,) * 5)
 UUID_PATTERN = r"^%s{36}\Z" % _UUID_CHAR
 
-# NOTE: the patterns end in \\Z, not $: in Python's re "$" also matches before a
-# trailing newline, which let names such as "CUSTOM_A\\n" through.
+# NOTE: the patterns end in \\Z, not $: in Python's re "$" also matches before
+# a trailing newline, which let names such as "CUSTOM_A\\n" through.
 _RC_TRAIT_CHAR = "[A-Z0-9_]"
 _RC_TRAIT_PATTERN = r"^%s+\Z" % _RC_TRAIT_CHAR
 RC_PATTERN = _RC_TRAIT_PATTERN
